@@ -227,6 +227,19 @@ def c05_l2(name, mk, bug=False):
     its full trail; DISABLE: the container adds nothing to the trail.  (no user bug in the datum)"""
     for strict in (True, False):
         data = mk()
+        r0 = ref_children(name, strict, data)
+        if r0[0] == "root_err" and not hasattr(data, "__next__"):
+            # a root error sits at the root and reports the datum itself
+            for dt in DT_MODES:
+                o = outcome(LD(name, strict, dt), data)
+                if o[0] != "load_error": return False
+                ls = leaves(o[2])
+                if len(ls) != 1 or ls[0][0] != (): return False
+                iv = getattr(ls[0][1], "input_value", data)
+                if iv is not data and not same(iv, data):
+                    if not (name in TUPLES and dt != DebugTrail.DISABLE and same(tuple(iv), tuple(data))):   # known finding C06: tuple copy
+                        return False
+            continue
         fails = expected_failures(name, strict, data)
         if not fails:
             continue
@@ -299,7 +312,7 @@ def c20_l2(name, data_builder):
     for strict in (True, False):
         for dt in DT_MODES:
             data = data_builder()
-            snap = snapshot(data)
+            snap = data_builder()                  # an independently built equal copy serves as the deep snapshot
             f = LD(name, strict, dt)
             o1 = outcome(f, data)
             if not same(data, snap):
